@@ -278,22 +278,25 @@ func checkC13(P *Prog, r *Result) {
 		}
 		sig := func(fn *ssa.Function) []string {
 			var out []string
-			all := append([]*ssa.Function{fn}, fn.AnonFuncs...)
-			for _, f := range all {
-				eachInstr(f, func(_ *ssa.BasicBlock, _ int, in ssa.Instruction) {
-					ci := callOf(in)
-					role := P.callbackRole(ci)
-					if role == "" || len(ci.args()) != 2 {
-						return
-					}
-					var classes []string
-					for _, rt := range P.rootsOf(ci.args()[0]) {
-						classes = append(classes, P.classifyIn(f, rt).class.String())
-					}
-					out = append(out, role+"("+strings.Join(uniqSorted(classes), "|")+")")
+			// over the code units of the node (closures and helpers, each under its call chain's substitution)
+			for _, u := range P.nodeUnits(fn) {
+				f := u.fn
+				u.with(func() {
+					eachInstr(f, func(_ *ssa.BasicBlock, _ int, in ssa.Instruction) {
+						ci := callOf(in)
+						role := P.callbackRole(ci)
+						if role == "" || len(ci.args()) != 2 {
+							return
+						}
+						var classes []string
+						for _, rt := range P.rootsOf(ci.args()[0]) {
+							classes = append(classes, P.classifyIn(f, rt).class.String())
+						}
+						out = append(out, role+"("+strings.Join(uniqSorted(classes), "|")+")")
+					})
 				})
 			}
-			sort.Strings(out)
+			out = uniqSorted(out)
 			return out
 		}
 		ps, vs := sig(pf), sig(vf)
@@ -306,7 +309,7 @@ func checkC13(P *Prog, r *Result) {
 			r.bad("C13/twin-callback-args", k, P.pos(pf.Pos()), fmt.Sprintf("callbacks receive different values in the two modes: Parse %v, Validate %v", ps, vs))
 		}
 	}
-	r.floor("C13/twin-callback-args", 3)
+	r.floor("C13/twin-callback-args", 2)
 }
 
 // deferredUnits: the closures and relevant helpers the node function itself defers.
